@@ -414,12 +414,48 @@ def str_split(I, recv, name, args):
     return lst
 
 
+class _DupColumn(Native):
+    """One entry of DBDuplicateEntry.columns (A-key): the name of a violated
+    unique constraint of the real model metadata, or of its column (MySQL 8 /
+    5 respectively), chosen non-deterministically."""
+
+    def __init__(self, tables=None):
+        self.decided = None
+        self.tables = tables
+
+    def domain(self):
+        import sqlalchemy as _sa
+        from placement.db.sqlalchemy import models
+        out = []
+        for t in models.BASE.metadata.sorted_tables:
+            if self.tables and t.name not in self.tables:
+                continue
+            for c in t.constraints:
+                if isinstance(c, _sa.UniqueConstraint):
+                    out.append(c.name)
+                    out.extend(col.name for col in c.columns)
+        return sorted(set(x for x in out if x))
+
+    def eq(self, I, other):
+        if not isinstance(other, str):
+            return False
+        if self.decided is None:
+            d = self.domain()
+            self.decided = d[I.ex.choose(len(d), tag='dupcol')]
+        return self.decided == other
+
+
 def exc_fields(cls, args, kwargs):
     """Instance attributes set by the __init__ of library exception classes
     (A-lib): webob's WSGIHTTPException(detail, headers, comment,
     body_template, json_formatter)."""
     import webob.exc
     f = dict(kwargs)
+    from oslo_db import exception as _dbe
+    if issubclass(cls, _dbe.DBDuplicateEntry) and 'columns' not in f:
+        # A-key: the violated constraint is one of the modelled unique keys;
+        # the driver reports a column or a constraint name
+        f['columns'] = VList([_DupColumn(f.pop('_tables', None))])
     if issubclass(cls, webob.exc.WSGIHTTPException):
         names = ('detail', 'headers', 'comment', 'body_template',
                  'json_formatter')
@@ -450,4 +486,53 @@ def base_registry():
     reg['classes'][excutils.save_and_reraise_exception] = \
         lambda I, a, k: SaveAndReraise()
     reg['calls'][id(exception._BaseException.format_message)] = format_message
+    import ast as _ast
+    for fn, node in ((operator.le, _ast.LtE()), (operator.lt, _ast.Lt()),
+                     (operator.ge, _ast.GtE()), (operator.gt, _ast.Gt()),
+                     (operator.eq, _ast.Eq()), (operator.ne, _ast.NotEq())):
+        reg['calls'][id(fn)] = (lambda nd: lambda I, a, k: I.compare(nd, a[0], a[1]))(node)
     return reg
+
+
+# --------------------------------------------------------------------------
+# interference (rely/guarantee, DESIGN 3.6)
+
+PERSISTENT = ('projects', 'users', 'consumer_types')
+
+
+def interfere(I, tid, mode, independent):
+    """on_txn_begin hook of the interference mode: between two top-level
+    transactions other requests may have committed anything allowed by the
+    rely R: rows of projects / users / consumer types persist unchanged (no
+    statement deletes or rewrites them); provider and consumer ids are not
+    reused, their uuid never changes and their generation never decreases;
+    the row invariants hold."""
+    from pyvc.ghostdb import GhostDB
+    old = I.db
+    if old is None:
+        return
+    I.ghost['interference_points'] = I.ghost.get('interference_points', 0) + 1
+    new = GhostDB(I, I.ex.fresh_name('db'))
+    new.writes = list(old.writes)
+    for h in new.row_invariants():
+        I.ex.hyp(h)
+    k = z3.Int('k!rely')
+    for tn in PERSISTENT:
+        o, n = old.tables[tn], new.tables[tn]
+        same = [z3.Select(n.exists, k)]
+        for cn in o.data:
+            same.append(z3.Select(n.data[cn], k) == z3.Select(o.data[cn], k))
+        I.ex.hyp(ops.forall([k], z3.Implies(z3.Select(o.exists, k),
+                                            z3.And(*same)),
+                            patterns=[z3.Select(o.exists, k)]))
+    for tn in ('resource_providers', 'consumers'):
+        o, n = old.tables[tn], new.tables[tn]
+        I.ex.hyp(ops.forall([k], z3.Implies(
+            z3.And(z3.Select(o.exists, k), z3.Select(n.exists, k)),
+            z3.And(z3.Select(n.data['uuid'], k) == z3.Select(o.data['uuid'], k),
+                   z3.Select(n.data['generation'], k) >=
+                   z3.Select(o.data['generation'], k))),
+            patterns=[z3.MultiPattern(z3.Select(o.exists, k),
+                                      z3.Select(n.exists, k))]))
+    I.db = new
+    I.event('interference', tid)
